@@ -38,6 +38,30 @@ Theorem bad_frame_costs_one :
 Proof. intros P sep keep_end dec Hne f1 bad f2. exact (bad_frame_costs_one_l sep keep_end dec Hne 0 f1 bad f2). Qed.
 Print Assumptions bad_frame_costs_one.
 
+(* Resynchronisation, copying path (StreamDataConsumer over read_until): a frame u of ANY size (far over the limit,
+   right at it, or small) followed by its terminator and then a stream [rest] within the limit: for every chunking the
+   consumer emits a non-empty list of junk events for u (containing a limit error when u is longer than the limit),
+   and then delivery resumes intact: exactly the events of [rest], nothing of [rest] lost to the junk. *)
+Theorem resync_after_overrun_copying :
+  forall (P : Type) (sep : bytes) (keep_end : bool) (dec : decoder P) (limit : nat),
+    sep <> [] ->
+    forall (u rest : bytes) (chunks : list bytes) (fuel : nat),
+      find0 sep (u ++ sep) = Some (length u) ->
+      safe sep limit rest ->
+      Forall (fun ch => ch <> []) chunks -> concat chunks = u ++ sep ++ rest -> length (concat chunks) < fuel ->
+      exists c' junk,
+        cdeliver (ru_framer sep limit keep_end dec) fuel (cinit _) chunks =
+          (c', junk ++ fst (spec_events sep keep_end dec rest)) /\
+        cbuf c' = [] /\ junk <> [] /\ (limit < length u -> In (RErr ELimit) junk).
+Proof. intros P sep keep_end dec limit Hne u rest chunks fuel. exact (resync_copying_l sep keep_end dec Hne limit u rest chunks fuel). Qed.
+Print Assumptions resync_after_overrun_copying.
+
+Example resync_example :
+  let dec := fun b : bytes => Some b in
+  cdeliver (ru_framer [13; 10]%N 4 false dec) 40 (cinit _) [[1; 2; 3; 4; 5; 13]; [10; 7; 13]; [10]]%N
+  = (@Build_cstate bytes (ru_framer [13; 10]%N 4 false dec) [] None, [RErr ELimit; RPkt []; RPkt [7%N]]).
+Proof. vm_compute. reflexivity. Qed.
+
 (* non-vacuity: a stream with a bad frame in the middle is safe for limit 12 and decodes as stated *)
 Example bad_frame_example :
   let dec := fun b : bytes => if forallb (fun x => N.ltb x 128) b then Some b else None in
